@@ -468,23 +468,34 @@ class NetBench:
 
 
 def mesh_json(n, arcs, variant=0):
-    """legacy topology JSON of a generated mesh: Transceiver + Roadm per site; per arc <<a, b, k>> one Fiber of km
+    """legacy topology JSON of a generated mesh: Transceiver + Roadm per site; per arc <<a, b, k>> one fibre of km
     kilometres, or - for a 0 km PATCH - one amplifier only (two ROADMs back to back: an OMS without any fibre).
-    Topology files are written both ways: about half of the fibres (chosen by variant) are followed by an amplifier
-    written in the file, the others are left bare for auto-design to equip."""
+    Topology files describe a fibre link in several ways; which one an arc gets is drawn from variant, the graph is
+    the same:   0 the bare fibre (auto-design equips it)        1 the fibre followed by an amplifier written in the file
+                2 a RamanFiber span with its amplifier (spans that auto-design does not split: <= 140 km)
+                3 a PASSIVE link, Fused - fibre - Fused: no amplifier at all in the OMS (50 km links only)"""
     data = line_or_mesh_json([str(k) for k in range(1, n + 1)], [])
     line_arc = {}
     amp = {'type': 'Edfa', 'type_variety': 'std_medium_gain',
            'operational': {'gain_target': None, 'tilt_target': 0, 'out_voa': None}}
+    pumps = [{'power': 0.2, 'frequency': 205e12, 'propagation_direction': 'counterprop'}]
     for a, b, km, k in arcs:
         tag = f'({a} -> {b})' + (' second' if k else '')
+        style = (variant // 7 + 3 * a + 5 * b + k) % 4
         chain = []
         if km > 0:
-            chain.append(dict(uid=f'fiber {tag}', type='Fiber', type_variety='SSMF',
-                              params={'length': km, 'length_units': 'km', 'loss_coef': 0.2, 'con_in': None,
-                                      'con_out': None}))
-            if (variant + 3 * a + 5 * b + k) % 2:
-                chain.append(dict(amp, uid=f'amplifier after fiber {tag}'))
+            fibre = dict(uid=f'fiber {tag}', type='Fiber', type_variety='SSMF',
+                         params={'length': km, 'length_units': 'km', 'loss_coef': 0.2, 'con_in': None, 'con_out': None})
+            if style == 2 and km <= 140:
+                fibre.update(type='RamanFiber', operational={'temperature': 283, 'raman_pumps': pumps})
+                chain += [fibre, dict(amp, uid=f'amplifier after fiber {tag}')]
+            elif style == 3 and km <= 50:
+                chain += [dict(uid=f'fused before fiber {tag}', type='Fused', params={'loss': 0}), fibre,
+                          dict(uid=f'fused after fiber {tag}', type='Fused', params={'loss': 0})]
+            elif style == 1:
+                chain += [fibre, dict(amp, uid=f'amplifier after fiber {tag}')]
+            else:
+                chain.append(fibre)
         else:
             chain.append(dict(amp, uid=f'patch edfa {tag}'))
         data['elements'] += chain
